@@ -724,10 +724,17 @@ class BatcherWorld:
                         break
         # sharing: consecutive arrivals < bt apart share a batch unless it is full
         where = {k: B for B in self.batches for k, _ in B.items}
+        shrinks = [tm for (_, n0), (tm, n1) in zip(self.size_limits, self.size_limits[1:]) if n1 < n0]
+        arr_no = {C.key: n for n, C in enumerate(self.arrivals)}
         for a, b in zip(self.arrivals, self.arrivals[1:]):
             gap = b.t_call - a.t_call
             if gap < bt and where[a.key] is not where[b.key]:
                 B = where[a.key]
+                if any(X.t_call <= tm <= where[X.key].start for tm in shrinks for X in self.arrivals[:arr_no[a.key] + 1]
+                       if where[X.key].start >= a.t_call):
+                    # the limit shrank while calls up to a were still collected, not handed over: the open group may then
+                    # exceed the new limit, and how an over-full group is cut up is not something the statement fixes
+                    continue
                 # (mutated limit: an implementation may also apply the limit in force when it hands the batch over)
                 lim = min(limits_at(a.t_call, max(b.t_call, B.start))) if mutated else p['max_batch_size']
                 if len(B.items) < lim:
